@@ -45,9 +45,12 @@ def check_parse(ctx, L, rng):
     toks = gen_code_list(rng, maxn=rng.choice([0, 1, 2, 3, 5, 8, 10]))
     body = ';'.join(str(t) for t in toks)
     p = M.parse_params(body)
-    if p.grey:
+    if p.grey and p.grey != 'ext-colour-bad-selector':
         ctx.grey(p.grey)
         return
+    # 38/48/58 followed by neither 5 nor 2 is an incomplete group by the statement's own words ("incomplete groups
+    # ... contribute nothing"): the introducer is dropped and reading continues with the next token.  That reading is
+    # what vf/sgr_model.parse_params implements; it stays grey only for terminal-appearance claims (C02).
     ref = M.apply_ops(p.ops, {})
     form = rng.choice(['str', 'ints', 'strs', 'mixed', 'tuple-of-ints'])
     if form == 'str':
